@@ -18,6 +18,10 @@ type truncCase struct {
 	Plain bool
 	TC    bool // TC already set before the call
 	Comp  bool `json:",omitempty"` // Compress already set before the call (a reply built by a handler that compresses)
+	// FitsAll: the reply is outside the plain sub-domain but contains no record of a (live) known
+	// over-estimate class (fits_test.go), so "a message that already fits keeps all its records" is
+	// asserted for it too. Decided by the generator.
+	FitsAll bool `json:",omitempty"`
 }
 
 // identity of a record for the prefix check: its uncompressed RFC encoding
@@ -154,7 +158,29 @@ func checkTrunc(c truncCase) error {
 	if len(bAn)+len(bNs)+len(bEx) == 0 && len(bw) > S {
 		classes = append(classes, "no-records-base>limit") // nothing to drop, the reply is just too big
 	}
-	pbt.Note(append([]byte(fmt.Sprint(c.Size, c.TC)), w...), dropped > 0 && kept > 0 || len(p) >= S-2 && len(p) <= S+2 || len(bw) > S-11, classes...)
+	// the whole original reply, packed compressed: "already fits" means len(full) <= S
+	justFits := false
+	fullLen := -1
+	if c.Plain || c.FitsAll {
+		oc := orig.Copy()
+		oc.Compress = true
+		if full, err := oc.Pack(); err == nil {
+			fullLen = len(full)
+		}
+		if fullLen >= 0 && fullLen <= S && len(bAn)+len(bNs)+len(bEx) > 0 {
+			classes = append(classes, "fits-clause-applies")
+			if !c.Plain {
+				classes = append(classes, "fits-clause-applies-nonplain")
+			}
+			if fullLen > 500 && fullLen >= S-3 {
+				justFits = true
+				classes = append(classes, "just-fits")
+			}
+		}
+	} else {
+		classes = append(classes, "fits-clause-off(known class)")
+	}
+	pbt.Note(append([]byte(fmt.Sprint(c.Size, c.TC)), w...), dropped > 0 && kept > 0 || len(p) >= S-2 && len(p) <= S+2 || len(bw) > S-11 || justFits, classes...)
 	if dropped > 0 && kept > 0 {
 		pbt.Sample("cut", fmt.Sprintf("size=%d: %d/%d/%d records -> %d/%d/%d, packed %d", c.Size, len(bAn), len(bNs), len(bEx), len(aAn), len(aNs), len(aEx), len(p)))
 	}
@@ -202,18 +228,17 @@ func checkTrunc(c truncCase) error {
 	if err != nil || !bytes.Equal(p2, p) || again.Truncated != lib.Truncated {
 		return pbt.Errf("Truncate(%d) is not idempotent: second call changes the message (%d -> %d octets, TC %v -> %v, err=%v)", c.Size, len(p), len(p2), lib.Truncated, again.Truncated, err)
 	}
-	// (5) plain sub-domain: fits => nothing dropped; maximality
-	if c.Plain {
-		oc := orig.Copy()
-		oc.Compress = true
-		full, err := oc.Pack()
-		if err != nil {
+	// (5) fits => nothing dropped: all replies (the statement restricts only the maximality clause);
+	// outside the plain sub-domain minus the known over-estimate classes, see fits_test.go.
+	// Maximality: plain sub-domain only.
+	if c.Plain || c.FitsAll {
+		if fullLen < 0 {
 			return nil
 		}
-		if len(full) <= S && dropped > 0 {
-			return pbt.Errf("Truncate(%d): the whole message packs into %d octets but %d records were dropped", c.Size, len(full), dropped)
+		if fullLen <= S && dropped > 0 {
+			return pbt.Errf("Truncate(%d): the whole message packs into %d octets but %d records were dropped", c.Size, fullLen, dropped)
 		}
-		if dropped > 0 {
+		if dropped > 0 && c.Plain {
 			re := lib.Copy()
 			re.Compress = true
 			opt := re.IsEdns0()
@@ -454,7 +479,7 @@ func genAny(t *rapid.T) truncCase {
 		m.Ex = append(m.Ex, sig)
 	}
 	extRcode(t, &m)
-	return truncCase{M: m, Size: pickSize(t, m), TC: rapid.IntRange(0, 4).Draw(t, "tc") == 0, Comp: rapid.IntRange(0, 3).Draw(t, "comp") == 0}
+	return truncCase{M: m, Size: pickSize(t, m), TC: rapid.IntRange(0, 4).Draw(t, "tc") == 0, Comp: rapid.IntRange(0, 3).Draw(t, "comp") == 0, FitsAll: fitsAll(m)}
 }
 
 func init() {
